@@ -496,14 +496,16 @@ MANIFEST_TEXT = {
         text="Theorems: wherever the port is not a transliteration (getline splitting, stol, isValid, zfill via setw/internal, "
              "padFrameRange re-printing numbers, length >= 1) its own Lean definition agrees with the Go model on the property's "
              "domain — same block list for every accepted text with >= 1 frame, same zero-filled numerals for every value and width, "
-             "padded ranges that are texts of the same component list; the port's directory scan is modelled at its two structurally "
-             "different spots (a bucket: build the string, parse, force the components; a frame-less file: construct from the path, "
-             "force directory, basename, extension) and proved equal to what the Go library builds from the components "
-             "(C19_scan_bucket, C19_scan_frameless); everywhere else one shared definition models both and the "
+             "padded ranges that are texts of the same component list; the port's two-pass directory scan has a model of its own "
+             "(Cpp.scan: entry filter order, buckets keyed by (basename, ext) with a running minimum width, numbers only, "
+             "string -> constructor -> forced components, single files built by the constructor and then forced) and is proved to "
+             "report the same sequences and single files as the Go scan for every directory of the property's domain (C19_scan, "
+             "by simulation of the two first passes; per bucket C19_scan_bucket, per frame-less file C19_scan_frameless); "
+             "everywhere else one shared definition models both and the "
              "three-way run (C++ driver built from /repo/cpp, Go harness, Lean driver) checks that both implementations follow it "
              "and agree with each other field by field.",
-        note="Partial: std::regex vs RE2, the port's bucket building (std::map, minimum width) and readdir handling are tied by the "
-             "three-way correspondence only, not proved. "
+        note="Partial: std::regex vs RE2 (one shared model of each pattern), readdir / d_type / stat and the iteration order of "
+             "std::map (sorted away by the observation) are tied by the three-way correspondence only, not proved. "
              "Trusted: Lean kernel, g++/libstdc++, the C++ protocol driver.",
         technique="Lean 4 theorems about hand-written executable models of both implementations (shared definitions + GfsModel.Cpp); "
                   "tied to /repo by a three-way differential run (C++ driver built from /repo/cpp, Go harness, compiled Lean driver) on every invocation"),
